@@ -272,6 +272,24 @@ func runAnyTrees(payload string) string {
 		_ = z.IsEqual(z)
 		_ = z.IsEqual(stackage.List())
 		_ = z.Len()
+		// ... also against a stack of the same kind and length in which one position holds nil instead
+		if z.IsInit() {
+			for hole := 0; hole < z.Len() && hole < 4; hole++ {
+				k := kindCode(z.Kind())
+				if k == 0 {
+					k = 4
+				}
+				o := newStack(k, 0)
+				for i := 0; i < z.Len(); i++ {
+					if x, _ := z.Index(i); i != hole {
+						o.Push(x)
+					} else {
+						o.Push(nil)
+					}
+				}
+				_, _ = z.IsEqual(o), o.IsEqual(z)
+			}
+		}
 		return "usable"
 	})
 	neither := "0"
